@@ -167,6 +167,11 @@ def transform_steps(spec, req):
                 simple.append(["prefix", cps(arg)]); continue
             if name == "string.add_suffix" and isinstance(arg, str):
                 simple.append(["suffix", cps(arg)]); continue
+            # the same two with their argument given by keyword
+            if name == "string.add_prefix" and isinstance(arg, dict) and list(arg) == ["prefix"] and isinstance(arg["prefix"], str):
+                simple.append(["prefix", cps(arg["prefix"])]); continue
+            if name == "string.add_suffix" and isinstance(arg, dict) and list(arg) == ["suffix"] and isinstance(arg["suffix"], str):
+                simple.append(["suffix", cps(arg["suffix"])]); continue
         simple = None
         break
     if simple is not None:
